@@ -28,20 +28,106 @@ from .. import core
 
 CACHE_BIN = os.path.join(core.BIN, "cache")
 
-# index -> (command string, --in-place, --no-copy)   (same table: coq/driver/drv_K.ml, harness/src/bin/cache.rs)
+# index -> (command string, Transform.in_place, Transform.copy)   (same table: coq/driver/drv_K.ml, harness/src/bin/cache.rs)
 TTABLE = [("cat", False, False), ("head -c 3", False, False), ("tr a-m n-z", False, False),
           ("base64 -w0", False, False), ("false", False, False), ("vk_failz", False, False),
-          ("sed -i y/abc/xyz/ $IN", False, False), ("sed -i y/abc/xyz/ $IN", True, False),
-          ("cat $IN", False, False), ("cat $IN", False, True), ("<none>", False, False)]
-T_CLEAN = [0, 1, 2, 3, 4, 5, 8, 9]
+          ("sed -i y/abc/xyz/ $IN", False, True), ("sed -i y/abc/xyz/ $IN", True, True),
+          ("cat $IN", False, True), ("cat $IN", False, False), ("<none>", False, True),
+          ("sed y/abc/xyz/ $IN --in-place", False, True), ("sed y/abc/xyz/ $IN", True, True)]
+T_CLEAN = [0, 1, 2, 3, 4, 5, 6, 7, 8, 9]
+T_FLAGS = [6, 7, 8, 9]
 NALGO = 7
 HASH_FNS = ["metro", "xxhash", "blake3", "sha256", "sha512", "sha3-256", "sha3-512"]
 
-KINDS = {
-    "pre": "stale_hit_pre_epoch_mtime",
-    "flag": "stale_hit_in_place_flag_switch",
-    "none": "stale_hit_transform_named_none",
-}
+KINDS = {}      # no known class is open for C12 (KC1, KC2, KC3 are repaired in /repo)
+
+
+def code_ms(ns):
+    """cache.rs timestamp_ms: whole ms, rounded towards zero"""
+    return ns // 1_000_000 if ns >= 0 else -((-ns) // 1_000_000)
+
+
+class Mtimes:
+    """Pool of modification times (ns).  Every value handed out has a millisecond stamp (as the cache computes it)
+    that was not handed out before in this sequence / history, so the proviso holds by construction for every
+    inode (also across inode reuse) — except with `collide=True`.  Classes (recorded in the histogram):
+      whole_second        ms part 000
+      same_second         same second as the file's previous mtime, other ms (incl. from / to .000)
+      plus_1ms, minus_1ms neighbours of the previous mtime
+      older               an OLDER mtime than the previous one (restored after the change)
+      later               a later one
+      pre_epoch_*         the same classes before 1970 (the previous mtime or the pool base is negative)
+      epoch_edge          -1 ms, 0, +1 ms
+      same_ms             (collide) the previous millisecond again: the proviso is violated on purpose"""
+
+    def __init__(self, rng, preepoch=False, pre_jump=(1, 16)):
+        self.r = rng
+        self.used = set()
+        self.preepoch = preepoch
+        self.pre_jump = pre_jump
+        self.base = (1_700_000_000 + rng.below(100_000)) * 1000            # ms, a whole second
+        self.nbase = -(5 + rng.below(2_000_000_000)) * 1000                 # ms, a whole second before 1970
+        self.classes = []
+
+    def _ns(self, ms, exact=None):
+        sub = 0 if (self.r.chance(1, 2) if exact is None else exact) else self.r.below(1_000_000)
+        if ms > 0:
+            return ms * 1_000_000 + sub
+        if ms < 0:
+            return ms * 1_000_000 - sub
+        return sub if self.r.chance(1, 2) else -sub
+
+    def pick(self, old=None, collide=False):
+        r = self.r
+        if collide and old is not None:
+            self.classes.append("same_ms")
+            return self._ns(code_ms(old), exact=False)
+        for _ in range(40):
+            neg_home = self.preepoch or (old is not None and old < 0)
+            if old is None or r.chance(1, 6):
+                home = self.nbase if (self.preepoch or r.chance(*self.pre_jump)) else self.base
+                k = r.below(8)
+                if k == 0:
+                    ms, cls = r.choice([-1, 0, 1]), "epoch_edge"
+                elif k <= 4:
+                    ms, cls = home + 1000 * (r.below(400) - 200), "whole_second"
+                else:
+                    ms, cls = home + r.below(400_000) - 200_000, "later" if old is None or home > code_ms(old) else "older"
+                neg_home = ms < 0
+            else:
+                o = code_ms(old)
+                k = r.below(10)
+                if k <= 2:
+                    sec = (abs(o) // 1000) * 1000
+                    j = 0 if r.chance(1, 3) else r.below(1000)
+                    ms, cls = (sec + j) * (1 if o >= 0 else -1), "same_second"
+                elif k == 3:
+                    ms, cls = o + 1, "plus_1ms"
+                elif k == 4:
+                    ms, cls = o - 1, "minus_1ms"
+                elif k <= 6:
+                    ms, cls = o - 1 - r.below(5000), "older"
+                elif k == 7:
+                    ms, cls = ((abs(o) // 1000) + 1 + r.below(3)) * 1000 * (1 if o >= 0 else -1), "whole_second"
+                else:
+                    ms, cls = o + 1 + r.below(5000), "later"
+            if ms in self.used:
+                continue
+            self.used.add(ms)
+            if ms < 0 and cls != "epoch_edge":
+                cls = "pre_epoch_" + cls
+            if ms % 1000 == 0 and cls.endswith("same_second"):
+                cls += "_to_000"
+            elif old is not None and code_ms(old) % 1000 == 0 and cls.endswith("same_second"):
+                cls += "_from_000"
+            self.classes.append(cls)
+            return self._ns(ms)
+        while True:
+            self.base += 7919
+            if self.base not in self.used:
+                self.used.add(self.base)
+                self.classes.append("later")
+                return self._ns(self.base)
 
 HELPERS = {
     # outputs its input, then fails iff the first byte is 'z' (the hash is computed, the exit status is non-zero)
@@ -74,15 +160,16 @@ class ApiGen:
         self.r = rng
         self.profile = profile
         self.files = {}          # name -> shared file object {"data": [...], "mt": ns}
-        self.clock = 1_700_000_000_000 + rng.below(1000)      # ms
-        self.neg = 1 + rng.below(50)                          # ms before the epoch
+        self.mt = Mtimes(rng.fork(), preepoch=(profile == "preepoch"))
         self.ops = []
         self.specs = []          # chunk specs used so far [(name-independent pos,len)]
         self.algos = [rng.below(NALGO) for _ in range(2)]
-        if profile == "inplace":
-            self.trs = ["6", "7"] + ([str(rng.choice(T_CLEAN))] if rng.chance(1, 3) else [])
+        if profile == "flags":
+            self.trs = [str(rng.choice(T_FLAGS)) for _ in range(3)] + (["-"] if rng.chance(1, 3) else [])
         elif profile == "none":
             self.trs = ["-", "10"]
+        elif profile == "alias":
+            self.trs = ["11", "12"]
         else:
             k = 1 + rng.below(3)
             self.trs = ["-"] + [str(rng.choice(T_CLEAN)) for _ in range(k)]
@@ -90,20 +177,14 @@ class ApiGen:
         # direct puts of arbitrary hashes test the map laws only: they poison the trees, so the oracle is off then
         self.allow_put = rng.chance(1, 4)
 
-    def fresh(self):
-        if self.profile == "preepoch":
-            if self.r.chance(1, 5):
-                return self.r.below(1_000_000)               # inside the first ms after the epoch
-            self.neg += 1 + self.r.below(3)
-            return -(self.neg * 1_000_000) - self.r.below(1_000_000)
-        self.clock += 1 + self.r.below(3)
-        return self.clock * 1_000_000 + self.r.below(1_000_000)
+    def fresh(self, old=None):
+        return self.mt.pick(old)
 
     def mtime_for_change(self, old):
         if self.profile == "same_ms" and old is not None and self.r.chance(1, 2):
             self.feat.add("kept_ms")
-            return (old // 1_000_000) * 1_000_000 + self.r.below(1_000_000)
-        return self.fresh()
+            return self.mt.pick(old, collide=True)
+        return self.mt.pick(old)
 
     def word(self, n):
         return [97 + self.r.below(4) if self.r.chance(3, 4) else 97 + self.r.below(26) for _ in range(n)]
@@ -151,22 +232,22 @@ class ApiGen:
             f["data"], f["mt"] = d, mt
             self.feat.add("rewrite_same_size")
         elif k == 4:            # other length
-            d, mt = self.content(), self.fresh()
+            d, mt = self.content(), self.fresh(f["mt"])
             self.ops.append("w:%d:%s:%d" % (p, dots(d), mt))
             f["data"], f["mt"] = d, mt
             self.feat.add("rewrite_other_size")
         elif k == 5:
-            x, mt = self.word(1 + r.below(3)), self.fresh()
+            x, mt = self.word(1 + r.below(3)), self.fresh(f["mt"])
             self.ops.append("a:%d:%s:%d" % (p, dots(x), mt))
             f["data"], f["mt"] = f["data"] + x, mt
             self.feat.add("append")
         elif k == 6:
-            n, mt = r.below(len(f["data"]) + 3), self.fresh()
+            n, mt = r.below(len(f["data"]) + 3), self.fresh(f["mt"])
             self.ops.append("t:%d:%d:%d" % (p, n, mt))
             f["data"], f["mt"] = (f["data"] + [0] * n)[:n], mt
             self.feat.add("truncate")
         elif k == 7:
-            mt = self.fresh()
+            mt = self.fresh(f["mt"])
             self.ops.append("u:%d:%d" % (p, mt))
             f["mt"] = mt
             self.feat.add("touch")
@@ -185,7 +266,7 @@ class ApiGen:
                 d, mt = self.word(len(f["data"])), f["mt"]
                 self.feat.add("kept_ms")
             else:
-                mt = self.fresh()
+                mt = self.fresh(f["mt"])
             self.ops.append("c:%d:%s:%d" % (q, dots(d), mt))
             self.files[q] = {"data": d, "mt": mt}
             self.feat.add("delete_recreate")
@@ -367,15 +448,10 @@ def api_examine(ctx, r, profile, count=True):
 
 
 def classify(fl):
-    """kind of an oracle failure in a sequence whose model flags are fl; None = excluded by the property's proviso"""
-    if fl.get("md") != "1":
-        return None
+    """kind of an oracle failure in a sequence whose model flags are fl; None = excluded by the proviso
+    (equal (ino, ms as the cache rounds it, length) for different contents somewhere in the sequence)"""
     if fl.get("sd") != "1":
-        return KINDS["pre"]
-    if fl.get("none") == "1":
-        return KINDS["none"]
-    if fl.get("flag") == "1":
-        return KINDS["flag"]
+        return None
     return "cached_differs_from_uncached"
 
 
@@ -386,22 +462,25 @@ def api_level(ctx, model):
     seqs, profs = [], {}
     for i in range(n):
         k = rng.below(100)
-        prof = "clean" if k < 64 else "same_ms" if k < 76 else "preepoch" if k < 86 else "inplace" if k < 94 else "none"
+        prof = ("clean" if k < 58 else "same_ms" if k < 70 else "preepoch" if k < 80 else "flags" if k < 90
+                else "alias" if k < 95 else "none")
         g = ApiGen(rng.fork(), prof)
         ops = g.generate()
         sid = "s%d" % i
         seqs.append((sid, ops))
-        profs[sid] = (prof, g.feat)
+        profs[sid] = (prof, g.feat, g.mt.classes)
     results = api_run(ctx, seqs, model, scratch)
     corr, env, crash = [], [], []
     for r in results:
-        prof, feat = profs[r["id"]]
+        prof, feat, _ = profs[r["id"]]
         status, detail = api_examine(ctx, r, prof)
         fl = r["flags"]
         ctx.bump("api_profile", prof)
         ctx.bump("api_ops_per_sequence", min(len(r["ops"]) // 5 * 5, 40))
         for f in sorted(feat):
             ctx.bump("api_sequence_feature", f)
+        for c in profs[r["id"]][2]:
+            ctx.bump("api_mtime_class", c)
         if status == "env":
             env.append((r, detail))
             continue
@@ -426,7 +505,8 @@ def api_level(ctx, model):
             if poisoned:
                 continue
             if kind is None:
-                ctx.bump("api_stale_answer_excluded_by_proviso", 1)
+                ctx.bump("api_stale_answer_excluded_by_proviso",
+                         "same_ms_rounded_down" if fl.get("md") != "1" else "same_stamp_only_when_rounded_towards_zero")
                 continue
             ctx.bump("api_oracle_failures", kind)
             ctx.violation({"kind": kind, "level": "api"},
@@ -545,16 +625,22 @@ def content_of(base, desc):
 SIZES = [1, 100, 4095, 4096, 4097, 8192, 65535, 65536, 65537, 70000, 131072]
 MOD_OFFSETS = [0, 10, 4000, 4095, 4096, 5000, 30000, -10, -1, -4096, -4097, 66000]
 
+# name -> (command string, --in-place, --no-copy)
 CLI_TRANSFORMS = {
     "-": None,
-    "cat": ("cat", False),
-    "tr": ("tr a-m n-z", False),
-    "head": ("head -c 4096", False),
-    "failz": ("vk_failz", False),
-    "sed_out": ("sed -i y/abc/xyz/ $IN", False),
-    "sed_inplace": ("sed -i y/abc/xyz/ $IN", True),
-    "none": ("<none>", False),
-    "head2": ("vk_head2", False),
+    "cat": ("cat", False, False),
+    "tr": ("tr a-m n-z", False, False),
+    "head": ("head -c 4096", False, False),
+    "failz": ("vk_failz", False, False),
+    "sed_out": ("sed -i y/abc/xyz/ $IN", False, False),
+    "sed_inplace": ("sed -i y/abc/xyz/ $IN", True, False),
+    "cat_in": ("cat $IN", False, False),
+    "cat_in_nocopy": ("cat $IN", False, True),
+    "none": ("<none>", False, False),
+    "head2": ("vk_head2", False, False),
+    # KC3b: the same transform id "sed y/abc/xyz/ $IN --in-place" for two different transforms
+    "sed_flagtext": ("sed y/abc/xyz/ $IN --in-place", False, False),
+    "sed_print_inplace": ("sed y/abc/xyz/ $IN", True, False),
 }
 
 
@@ -568,19 +654,14 @@ class CliGen:
         self.names = {}          # path -> file object id
         self.objs = {}           # id -> {"desc":..., "mt":...}
         self.nobj = 0
-        self.clock = 1_700_000_000_000 + rng.below(100000)
-        self.neg = 10 + rng.below(1000)
+        self.mt = Mtimes(rng.fork(), preepoch=(profile == "preepoch"), pre_jump=(1, 10))
         self.nname = 0
         self.feat = set()
         # few sizes per history: files of equal size are what the hashing stages (and so the cache) work on
         self.sizes = [rng.choice(SIZES) for _ in range(3)]
 
-    def fresh(self):
-        if self.profile == "preepoch":
-            self.neg += 1 + self.r.below(2000)
-            return -(self.neg * 1_000_000) - self.r.below(1_000_000)
-        self.clock += 1 + self.r.below(5000)
-        return self.clock * 1_000_000 + self.r.below(1_000_000)
+    def fresh(self, old=None):
+        return self.mt.pick(old)
 
     def new_name(self):
         self.nname += 1
@@ -603,6 +684,13 @@ class CliGen:
         return self.nobj
 
     def edit(self):
+        n = len(self.mt.classes)
+        e = self.edit1()
+        if len(self.mt.classes) > n:
+            e["mt_class"] = self.mt.classes[-1]
+        return e
+
+    def edit1(self):
         r = self.r
         paths = sorted(self.names)
         k = r.below(14)
@@ -623,12 +711,12 @@ class CliGen:
         o = self.objs[self.names[p]]
         if k in (1, 2, 3, 4):
             d = {"size": o["desc"]["size"], "mods": [list(m) for m in o["desc"]["mods"]] + [[r.choice(MOD_OFFSETS), 69 + r.below(8)]]}
-            mt = self.fresh()
+            mt = self.fresh(o["mt"])
             o["desc"], o["mt"] = d, mt
             self.feat.add("rewrite_same_size")
             return {"op": "write", "path": p, "desc": d, "mt": mt}
         if k == 5:
-            d, mt = self.desc(), self.fresh()
+            d, mt = self.desc(), self.fresh(o["mt"])
             o["desc"], o["mt"] = d, mt
             self.feat.add("rewrite_other_size")
             return {"op": "write", "path": p, "desc": d, "mt": mt}
@@ -645,7 +733,7 @@ class CliGen:
                 mt = o["mt"]
                 self.feat.add("length_change_keeps_mtime")
             else:
-                mt = self.fresh()
+                mt = self.fresh(o["mt"])
             used.add((mt, size))
             nd = {"size": size, "mods": [list(m) for m in o["desc"]["mods"] if m[0] >= 0]}
             o["desc"], o["mt"] = nd, mt
@@ -653,7 +741,7 @@ class CliGen:
             self.feat.add(how)
             return {"op": "write", "path": p, "desc": nd, "mt": mt, "how": how, "keeps_mtime": mt in [x[0] for x in used if x[1] != size]}
         if k == 8:
-            mt = self.fresh()
+            mt = self.fresh(o["mt"])
             o["mt"] = mt
             self.feat.add("touch")
             return {"op": "touch", "path": p, "mt": mt}
@@ -667,7 +755,7 @@ class CliGen:
             del self.names[p]
             q = p if r.chance(1, 2) else self.new_name()
             d = self.desc(o["desc"]["size"] if r.chance(2, 3) else None)
-            mt = self.fresh()
+            mt = self.fresh(o["mt"])
             self.names[q] = self.new_obj(d, mt)
             self.feat.add("delete_recreate")
             return {"op": "recreate", "path": p, "to": q, "desc": d, "mt": mt}
@@ -680,7 +768,7 @@ class CliGen:
             del self.names[p]
             self.feat.add("unlink")
             return {"op": "unlink", "path": p}
-        mt = self.fresh()
+        mt = self.fresh(o["mt"])
         o["mt"] = mt
         return {"op": "touch", "path": p, "mt": mt}
 
@@ -697,8 +785,10 @@ class CliGen:
             cfg["max_suffix"] = r.choice([None, 1024, 4096])
         if r.chance(1, 8):
             cfg["skip_content"] = not cfg["skip_content"]
-        if self.profile == "inplace":
-            cfg["transform"] = r.choice(["sed_out", "sed_inplace"])
+        if self.profile == "flags":
+            cfg["transform"] = r.choice(["sed_out", "sed_inplace", "cat_in", "cat_in_nocopy"])
+        elif self.profile == "alias":
+            cfg["transform"] = r.choice(["sed_flagtext", "sed_print_inplace"])
         elif self.profile == "none":
             cfg["transform"] = r.choice(["-", "none"])
             cfg["skip_content"] = False
@@ -778,6 +868,8 @@ def cli_args(cfg, cached):
         a += ["--transform", t[0]]
         if t[1]:
             a.append("--in-place")
+        if t[2]:
+            a.append("--no-copy")
     if cfg.get("max_prefix"):
         a += ["--max-prefix-size", str(cfg["max_prefix"])]
     if cfg.get("max_suffix"):
@@ -856,22 +948,8 @@ def cli_exec(fclones, hdir, bindir, steps, base, order_rng=None, stats=None):
 
 
 def neutralise(steps, profile):
-    """the same history with the trigger of the known class removed"""
-    s = json.loads(json.dumps(steps))
-    if profile == "preepoch":
-        for st in s:
-            for e in st["edits"]:
-                if "mt" in e:
-                    e["mt"] += 3_000_000_000_000_000_000
-    elif profile == "inplace":
-        for st in s:
-            if st["run"]["transform"] == "sed_inplace":
-                st["run"]["transform"] = "tr"           # another command string: another tree
-    elif profile == "none":
-        for st in s:
-            if st["run"]["transform"] == "none":
-                st["run"]["transform"] = "head2"        # the same program under another name
-    return s
+    """the same history with the trigger of a known class removed (no class is known at present)"""
+    return json.loads(json.dumps(steps))
 
 
 def shrink(fclones, hdir, bindir, steps, base, budget=24):
@@ -913,7 +991,7 @@ def cli_history_check(ctx, fclones, bindir, base, hid, profile, steps, order_see
     return res
 
 
-KINDS_CLI = {"preepoch": KINDS["pre"], "inplace": KINDS["flag"], "none": KINDS["none"]}
+KINDS_CLI = {}
 
 
 def corpus_histories():
@@ -944,7 +1022,7 @@ def cli_level(ctx, only=None):
         n = ctx.pick(36, 600)
         for i in range(n):
             k = rng.below(100)
-            prof = "clean" if k < 82 else "preepoch" if k < 88 else "inplace" if k < 94 else "none"
+            prof = "clean" if k < 70 else "preepoch" if k < 80 else "flags" if k < 90 else "alias" if k < 95 else "none"
             nsteps = 1 + rng.below(6)
             g = CliGen(rng.fork(), prof, nsteps)
             steps = g.generate()
@@ -967,6 +1045,8 @@ def cli_level(ctx, only=None):
             ctx.bump("cli_interrupted_before", c.get("kill_ms") is not None)
             for e in s["edits"]:
                 ctx.bump("cli_edit", e["op"] + ("_" + e["how"] if e.get("how") else "") + ("_keeping_mtime" if e.get("keeps_mtime") else ""))
+                if e.get("mt_class"):
+                    ctx.bump("cli_mtime_class", e["mt_class"])
         cfgs = [json.dumps(s["run"], sort_keys=True) for s in r["steps"]]
         ctx.bump("cli_config_switches_in_history", sum(1 for a, b in zip(cfgs, cfgs[1:]) if a != b))
         for g in st.get("groups", []):
@@ -1001,17 +1081,19 @@ def run(ctx):
     ctx.rule = ("(a) API: PRNG op sequences (edits create/rewrite same size/other size/append/truncate/touch/rename/unlink+create/"
                 "hard link on 1-4 small files sharing prefixes and suffixes; sessions of HashCache open/put/get/close and of "
                 "FileHasher::new_cached hash_file/hash_transformed under 2 algorithms x up to 4 transform configurations per "
-                "sequence); profiles clean / same_ms (proviso violated on purpose: the model must predict the stale answer) / "
-                "preepoch / inplace / none (the three known classes); one evaluation = one op answer compared with the model; "
+                "sequence); mtimes from a pool (whole seconds, same-second pairs incl. from/to .000, +-1 ms, older mtimes restored, "
+                "pre-epoch, epoch edge; unique ms stamps so the proviso holds by construction); profiles clean / same_ms (proviso "
+                "violated on purpose: the model must predict the stale answer) / preepoch / flags (--in-place, --no-copy variants) / "
+                "alias, none (transform ids that coincided before ea68843: regression); one evaluation = one op answer compared with the model; "
                 "non-trivial = at least one call answered from the cache; distinct = distinct op sequence.  "
                 "(b) CLI: histories of 1..6 steps (1-11 edits; `group --cache` with hash function / transform / prefix / suffix / "
                 "skip-content switches, optionally preceded by a SIGKILLed run) over trees of files of sizes around 4 KiB and "
                 "64 KiB sharing a 140 kB base with byte differences in prefix, middle and suffix; one evaluation = one "
                 "cached-vs-uncached report comparison; non-trivial = more than one step and some group reported")
     ctx.assumptions = [
-        "stamp_determines: at any two moments equal (dev, ino, ms mtime as the cache computes it, length) => equal content "
+        "stamp_determines: at any two moments equal (dev, ino, ms mtime as the cache computes it = rounded towards zero, length) => equal content "
         "(the property's proviso; checked per generated sequence by the extracted stamp_determines_b, proved sound)",
-        "tree_faithful: configurations with the same sled tree id denote the same transform (violated only by the known classes KC2/KC3)",
+        "nul_free: transform command strings contain no NUL byte (then the sled tree id determines the configuration: C12_tree_id_injective)",
         "no write to a file between the stat and the read of one hasher call; the transform is a function of the file content",
         "sled / typed-sled store and return what was put (only get/put/hash results are observed; flusher thread and layout not modelled)",
     ]
